@@ -21,9 +21,9 @@ from gridrv.props import c03
 
 PROP = "C04"
 TITLE = "Transforming a 1D grid is a faithful change of variables"
-REQUIRED_HOOKS = ["BaseTransform.transform_1d_grid", "decided:weights-magnitude", "decided:weights-sign", "decided:domain-image", "decided:sum-identity"]
+REQUIRED_HOOKS = ["BaseTransform.transform_1d_grid", "decided:weights-magnitude", "decided:weights-sign", "decided:domain-image", "decided:sum-identity", "decided:points-dtype", "decided:sequence-repeat"]
 FAM_TF = [c03.CLS[k] for k in c03.KINDS] + ["InverseRTransform"]
-REQUIRED_FAMILIES = FAM_TF + ["chain", "subdomain", "gl-linear-exactness", "exp-integral", "incidental", "pinned"]
+REQUIRED_FAMILIES = FAM_TF + ["chain", "subdomain", "gl-linear-exactness", "exp-integral", "incidental", "pinned", "sequence", "dtype-grid", "boundary"]
 BUDGET = {"quick": 900, "thorough": 7200}  # per-worker seconds; expected on 16 idle cores: quick ~10 s, thorough ~3-4 min
 MAX_DISCARD_FRACTION = 0.02
 TOL_EXPINT = 1e-3  # |beta*I - 1|; largest quadrature error seen (GL n=60/120, beta*R in [2,4]) 2.8e-6; the sign defect gives 2
@@ -36,6 +36,10 @@ KINDS_M11 = ["Becke", "LinearFinite", "MultiExp", "Knowles", "Handy", "HandyMod"
 KINDS_0INF = ["Identity", "LinearInfinite", "Exp", "Power", "Hyperbolic"]
 INV_M11 = ["LinearFinite", "HandyMod"]  # InverseRTransform(T) whose domain (rmin, rmax) can contain [-1, 1]
 INV_0INF = ["Becke", "MultiExp", "Knowles", "Handy", "Identity", "Hyperbolic"]  # domain (0, inf) when rmin = 0
+DTYPE_GRIDS = {
+    "m11": ["int64-midpoint", "int32-midpoint", "int64-trapezoid", "int32-trapezoid", "int64-simpson", "int32-simpson", "int64-simpson-intweights", "float32-nodes+weights", "float32-weights"],
+    "0inf": ["int64-arange", "int32-arange", "int64-arange-intweights", "float32-nodes+weights", "float32-weights"],
+}
 RULE = (
     "One case = (1-D rule, n, transform instance) with the transform's domain containing the rule's domain: 19 rules on [-1,1] x "
     "{Becke, LinearFinite, MultiExp, Knowles, Handy, HandyMod, Inverse(LinearFinite), Inverse(HandyMod)}, 7 rules on [0,inf) x "
@@ -118,6 +122,31 @@ def cases(tier, seed):
                 out.append(("exp-integral", {"n": n, "tf": {"kind": kind, **p}, "k": k}, 1.5))
     for z in (1, 6, 8, 17, 26) if tier == "quick" else range(1, 37):
         out.append(("incidental", {"atnum": z}, 2.0))
+    # ---- input classes beyond "fresh transform x shipped float rule":
+    # (a) ONE transform object applied to several different grids of equal class and size in sequence,
+    # (b) hand-made OneDGrids whose nodes are stored as integers (int64/int32) or float32,
+    # (c) structured boundary parameter values x numeric spellings (C03's list)
+    j = 0
+    for dom, kinds, invk in (("m11", KINDS_M11, INV_M11), ("0inf", KINDS_0INF, INV_0INF)):
+        for inv, kk in ((False, kinds), (True, invk)):
+            for kind in kk:
+                variants = [p for k, p in _tf_grid([kind]) if p.get("bmode", "explicit") == "explicit"]
+                if inv:
+                    variants = [p for p in variants if (kind in INV_M11 and p.get("rmin") in (0.0, 1.0)) or (kind in INV_0INF and p.get("rmin", 0.0) == 0.0 and p.get("v", 0) < 2)]
+                many = kind in ("Knowles", "Handy", "HandyMod")
+                for p in _pick(variants, tier, seed, j, many) if tier == "quick" else variants:
+                    j += 1
+                    tfp = {"kind": kind, **p}
+                    for n in (5, 9, 21)[:: 1 if tier == "thorough" else 2] if tier == "thorough" else ((5, 9, 21)[(j + seed) % 3],):
+                        out.append(("sequence", {"dom": dom, "n": n, "tf": tfp, **({"inv": True} if inv else {})}, 3.0))
+                    for gv in DTYPE_GRIDS[dom]:
+                        if tier == "quick" and (j + len(gv)) % 2 != seed % 2 and not gv.startswith("int64"):
+                            continue
+                        out.append(("dtype-grid", {"dom": dom, "grid": gv, "tf": tfp, **({"inv": True} if inv else {})}, 1.0))
+    for kind, p in c03._boundary():
+        rules = ("GaussLegendre:8", "Trapezoidal:5", "int64-simpson") if kind in KINDS_M11 else ("UniformInteger:6", "GaussLaguerre:6")
+        for r in rules:
+            out.append(("boundary", {"rule": r, "tf": {"kind": kind, **p}}, 1.0))
     # pinned witnesses of the open findings (both tiers, first)
     out.append(("pinned", {"what": "multiexp-negative-weights"}, 1e9))
     out.append(("pinned", {"what": "inverse-multiexp-negative-weights"}, 1e9))
@@ -408,10 +437,127 @@ def run_case(ctx, family, params):
         o = mon.last_result()
         if o is None or not o["decided"].any():
             ctx.trivial()
+    elif family == "sequence":
+        _sequence(ctx, params)
+    elif family == "dtype-grid":
+        g = hand_grid(params["grid"], params["dom"], ctx.rng, bool(params.get("inv")) and params["tf"]["kind"] in ("Knowles", "Handy", "HandyMod"))
+        inv = bool(params.get("inv"))
+        I, tf = build_tf(ctx, params["tf"], inv, g)
+        ctx.case_note("tf", c03._note(I))
+        if not admissible(I, inv, tf, g):
+            # e.g. trapezoid / Simpson end nodes through a map that is singular at that end
+            ctx.count("inadmissible-pairing-skipped:node-on-singular-end")
+            ctx.trivial()
+            return
+        ctx.count("dtype-grid:" + params["grid"])
+        new, o = transform_and_check(ctx, tf, g, "dtype-grid")
+        if o is None or not o["decided"].any():
+            ctx.trivial()
+    elif family == "boundary":
+        name, _, nn = params["rule"].partition(":")
+        g = hand_grid(name, "m11", ctx.rng, False) if not nn else make_rule(name, int(nn))
+        I, tf = build_tf(ctx, params["tf"], False, g)
+        ctx.case_note("tf", c03._note(I))
+        if not admissible(I, False, tf, g):
+            ctx.count("inadmissible-pairing-skipped:node-on-singular-end")
+            ctx.trivial()
+            return
+        new, o = transform_and_check(ctx, tf, g, "boundary")
+        if o is None or not o["decided"].any():
+            ctx.trivial()
     elif family == "pinned":
         _pinned(ctx, params["what"])
     else:
         raise ValueError(family)
+
+
+def hand_grid(variant, dom, rng, skip_zero):
+    """Hand-made OneDGrids: integer-dtype nodes (the only integer nodes of [-1,1] are -1, 0, 1: midpoint, trapezoid,
+    Simpson; 0..n-1 on the half line) and float32 nodes / weights."""
+    from grid.basegrid import OneDGrid
+
+    dt, _, what = variant.partition("-")
+    if dt in ("int64", "int32"):
+        idt = np.int64 if dt == "int64" else np.int32
+        intw = what.endswith("-intweights")
+        what = what.replace("-intweights", "")
+        if what == "midpoint":
+            pts, w = np.array([0], dtype=idt), np.array([2.0])
+        elif what == "trapezoid":
+            pts, w = np.array([-1, 1], dtype=idt), np.array([1.0, 1.0])
+        elif what == "simpson":
+            pts, w = np.array([-1, 0, 1], dtype=idt), (np.array([1, 4, 1], dtype=idt) if intw else np.array([1.0, 4.0, 1.0]) / 3)
+        elif what == "arange":
+            n = int(rng.integers(3, 14))
+            pts = np.arange(1 if skip_zero else 0, n + (1 if skip_zero else 0), dtype=idt)
+            w = np.ones(n, dtype=idt) if intw else np.ones(n)
+        else:
+            raise ValueError(variant)
+        return OneDGrid(pts, w, (-1, 1) if dom == "m11" else (0, np.inf))
+    n = int(rng.integers(3, 16))
+    if dom == "m11":
+        pts = np.sort(rng.uniform(-0.85, 0.85, n))
+        w = rng.uniform(0.2, 1.0, n) * 2 / n
+        d = (-1, 1)
+    else:
+        pts = np.sort(10 ** rng.uniform(-1, 1, n))
+        w = rng.uniform(0.2, 1.0, n)
+        d = (0, np.inf)
+    if what == "nodes+weights":
+        return OneDGrid(pts.astype(np.float32), w.astype(np.float32), d)
+    return OneDGrid(pts, w.astype(np.float32), d)
+
+
+def _sequence(ctx, params):
+    """ONE transform object applied to several grids in a row: equal rule class and size but different parameters, hand-made
+    grids, the two halves of one grid, the same grid twice.  Every call is decided by the attached post-condition."""
+    import grid.onedgrid as og
+    from grid.basegrid import OneDGrid
+
+    rng = ctx.rng
+    n = params["n"]
+    inv = bool(params.get("inv"))
+    if params["dom"] == "m11":
+        a = np.sort(rng.uniform(-0.95, 0.95, n))
+        b = np.sort(rng.uniform(-0.95, 0.95, n))
+        A = OneDGrid(a, rng.uniform(0.2, 1, n) * 2 / n, (-1, 1))
+        B = OneDGrid(b, rng.uniform(0.2, 1, n) * 2 / n, (-1, 1))
+        G = og.GaussLegendre(2 * n)
+        grids = [og.TanhSinh(n, 0.1), og.TanhSinh(n, 0.25), og.SingleTanh(n, 0.1), og.SingleTanh(n, 0.3), og.TrefethenStripGC2(n, 1.1), og.TrefethenStripGC2(n, 1.4), og.TrefethenGC2(n, 5), og.TrefethenGC2(n, 9), A, B, G[:n], G[n:], og.GaussLegendre(n), A]
+    else:
+        a = np.sort(10 ** rng.uniform(-1.5, 1.2, n))
+        b = np.sort(10 ** rng.uniform(-1.5, 1.2, n))
+        A = OneDGrid(a, rng.uniform(0.2, 1, n), (0, np.inf))
+        B = OneDGrid(b, rng.uniform(0.2, 1, n), (0, np.inf))
+        U = og.UniformInteger(2 * n)
+        grids = [og.GaussLaguerre(n, 0.0), og.GaussLaguerre(n, 1.5), og.SingleExp(n, 0.1), og.SingleExp(n, 0.3), og.SingleArcSinhExp(n, 0.1), og.SingleArcSinhExp(n, 0.25), A, B, U[n:], U[:n], og.GaussLaguerre(n, 0.0), A]
+    rng.shuffle(grids)
+    grids.append(grids[0])  # the first grid again at the end
+    allpts = np.concatenate([np.asarray(g.points, dtype=float) for g in grids])
+    hull = OneDGrid(np.sort(allpts), np.ones(allpts.size), grids[0].domain)
+    I, tf = build_tf(ctx, params["tf"], inv, hull)
+    ctx.case_note("tf", c03._note(I))
+    first = {}
+    ncalls = 0
+    for g in grids:
+        if not admissible(I, inv, tf, g):
+            ctx.count("inadmissible-pairing-skipped:node-on-singular-end")
+            continue
+        new, o = transform_and_check(ctx, tf, g, "sequence")
+        if new is None:
+            continue
+        ncalls += 1
+        key = id(g)
+        if key in first:
+            p0, w0, d0 = first[key]
+            same = np.array_equal(p0, new.points, equal_nan=True) and np.array_equal(w0, new.weights, equal_nan=True) and repr(d0) == repr(new.domain)
+            ctx.check("repeat-call-same-result", f"{mon.describe(tf)}|src={mon.src_label(g.domain)}", same, sig="same-grid-transformed-twice-differs")
+            ctx.hit("decided:sequence-repeat")
+        else:
+            first[key] = (new.points.copy(), new.weights.copy(), new.domain)
+    ctx.count("sequence-calls", ncalls)
+    if ncalls < 2:
+        ctx.trivial()
 
 
 def _pinned(ctx, what):
